@@ -1,6 +1,7 @@
 pub mod ak;
 pub mod c01;
 pub mod c02;
+pub mod c06u;
 pub mod c07;
 pub mod c13;
 pub mod c14;
